@@ -35,6 +35,9 @@ def run(ctx: Ctx, env):
     gm = grammar_module(env)
     kf = env.kindflow
 
+    # ---- R6 nothing outside the lexer/parser reads the state SLY leaves on an instance --------------------------------------
+    check_no_run_state_reads(ctx, env)
+
     # ---- R1 effects of callbacks ---------------------------------------------------------------------------------
     n_cb = 0
 
@@ -206,6 +209,61 @@ def _functions(m):
             for b in st.body:
                 if isinstance(b, (ast.FunctionDef, ast.AsyncFunctionDef)):
                     yield b, st.name
+
+
+def _sly_run_state() -> Dict[str, Set[str]]:
+    """Attributes that the installed SLY assigns on the *instance* while it runs (Parser.parse / Lexer.tokenize and what they
+    call): whoever reads them from outside sees the history of the instance."""
+    spec = importlib.util.find_spec("sly")
+    if spec is None or not spec.submodule_search_locations:
+        raise AnalysisError("installed SLY not found")
+    base = list(spec.submodule_search_locations)[0]
+    out: Dict[str, Set[str]] = {}
+    for fname, cls in (("yacc.py", "Parser"), ("lex.py", "Lexer")):
+        tree = ast.parse(open(os.path.join(base, fname), encoding="utf-8").read())
+        attrs: Set[str] = set()
+        for st in tree.body:
+            if isinstance(st, ast.ClassDef) and st.name == cls:
+                for b in st.body:
+                    if isinstance(b, ast.FunctionDef) and not b.name.startswith("__") and not any(
+                            isinstance(d, ast.Name) and d.id == "classmethod" for d in b.decorator_list):
+                        for n in ast.walk(b):
+                            if isinstance(n, ast.Attribute) and isinstance(n.ctx, ast.Store) and isinstance(n.value, ast.Name) and n.value.id == "self":
+                                attrs.add(n.attr)
+        out[cls] = attrs
+    return out
+
+
+def check_no_run_state_reads(ctx: Ctx, env, rule: str = "R6.no-read-of-run-state"):
+    """Code outside the lexer/parser classes may not read, from a lexer or parser instance, an attribute SLY overwrites while
+    running (tokens, symstack, index, ...): a supplied instance that was used before would behave differently from a fresh one."""
+    repo, g = env.repo, env.grammar
+    state = _sly_run_state()
+    cls_of = {g.parser_class.rsplit(".", 1)[-1]: state["Parser"], g.lexer_class.rsplit(".", 1)[-1]: state["Lexer"]}
+    n = 0
+    for m in repo.modules.values():
+        for fn, owner in _functions(m):
+            if f"{m.name}.{owner}" in (g.parser_class, g.lexer_class):
+                continue
+            typed: Dict[str, Set[str]] = {}
+            for a in fn.args.args + fn.args.kwonlyargs:
+                ann = ast.unparse(a.annotation) if a.annotation is not None else ""
+                for cname, attrs in cls_of.items():
+                    if cname in ann:
+                        typed[a.arg] = attrs
+            for x in ast.walk(fn):
+                if isinstance(x, ast.Assign) and isinstance(x.value, ast.Call) and len(x.targets) == 1 and isinstance(x.targets[0], ast.Name):
+                    cname = ast.unparse(x.value.func).rsplit(".", 1)[-1]
+                    if cname in cls_of:
+                        typed[x.targets[0].id] = cls_of[cname]
+            for x in ast.walk(fn):
+                if isinstance(x, ast.Attribute) and isinstance(x.ctx, ast.Load) and isinstance(x.value, ast.Name) and x.value.id in typed:
+                    n += 1
+                    ctx.check(x.attr not in typed[x.value.id], rule, f"{m.name}.{owner + '.' if owner else ''}{fn.name}|{x.value.id}.{x.attr}",
+                              f"reads `{x.value.id}.{x.attr}`, an attribute SLY assigns on the instance while it runs: for an instance that has been "
+                              "used before, this is left-over state of the previous run, not what a fresh instance has", m.loc(x),
+                              "AliasRewriter({...}, parser=<a parser that already parsed something>)")
+    return n
 
 
 def _check_sly(ctx: Ctx):
